@@ -421,7 +421,14 @@ def clf_unimodal(f):
     return f["inputs"].get("op") == "unimodality" and f["predicate"] in ("unimodality_optimal", "unimodality_idempotent")
 
 
-CLASSIFIERS = {"l1_norm_of_some_column_le_threshold": clf_inside_l1_ball,
+def clf_l2_zero(f):
+    inp = f["inputs"]
+    return (inp.get("op") == "l2" and f["predicate"] == "finite_same_size" and not np.any(np.asarray(inp["tensor"], float) != 0)
+            and float(inp["param"]) == 0.0)
+
+
+CLASSIFIERS = {"l2_zero_tensor_and_zero_regularizer": clf_l2_zero,
+               "l1_norm_of_some_column_le_threshold": clf_inside_l1_ball,
                "max_normalisation_is_a_scaling_not_a_projection": clf_maxnorm,
                "unimodality_prox_suboptimal_or_not_idempotent": clf_unimodal}
 
@@ -447,43 +454,108 @@ def gen_values(rng, n, kind, klass, scale):
         vals = sorted(vals, reverse=rng.random() < 0.5)
     elif klass == "small":
         vals = [x / 64 for x in vals]
+    elif klass == "const":
+        c = one() or 1.0
+        vals = [c for _ in range(n)]
+    elif klass == "spike":
+        vals = [x / 64 for x in vals]
+        vals[rng.randrange(n)] = rng.choice([-1, 1]) * (4.0 if kind == "dyadic" else rng.uniform(3, 4))
+    elif klass == "peak":       # rises then falls (unimodal up to a little noise)
+        m = rng.randrange(n)
+        up = sorted(abs(x) for x in vals[:m + 1]); down = sorted((abs(x) for x in vals[m + 1:]), reverse=True)
+        vals = up + [min(x, up[-1]) for x in down]
     return [x * scale for x in vals]
+
+
+CLASSES = ["signed", "neg", "pos", "ties", "zeros", "sorted", "small", "const", "spike", "peak"]
+NAMES = ["non_negative", "soft", "soft_arr", "l2_square", "l2", "smoothness", "simplex", "soft_sparsity", "monotone_inc",
+         "monotone_dec", "unimodality", "hard", "normalized_sparsity", "normalize"]
+DISPATCHABLE = [n for n in NAMES if n not in ("soft_arr", "monotone_dec")]
+
+
+def gen_par(rng, name, a, kind, scale):
+    n = a.size
+    if name == "hard":
+        return rng.choice([0, 1, 2, max(1, n // 2), n, n + 2])
+    if name == "normalized_sparsity":
+        return rng.choice([1, 2, max(1, n // 2), n, n + 1])
+    if name == "soft_arr":
+        return np.array([abs(x) for x in gen_values(rng, n, kind, rng.choice(["signed", "zeros"]), scale)]).reshape(a.shape)
+    if name in ("simplex", "soft_sparsity"):
+        # inside / outside the set: the budget ranges from far below to far above the column sums
+        return rng.choice([1 / 16, 0.5, 1.0, 2.0, 8.0, 64.0]) * scale
+    if name in ("non_negative", "normalize", "monotone_inc", "monotone_dec", "unimodality", "procrustes", "identity"):
+        return None
+    par = (rng.choice([0, 1, 4, 8, 24, 80]) / 16.0 if kind == "dyadic" else rng.choice([0.0, rng.uniform(0, 1), rng.uniform(1, 6)])) * scale
+    if name in ("smoothness", "l2_square"):
+        par = par / scale * rng.choice([1e-3, 1.0, 50.0]) if kind == "float" else par / scale
+    return par
+
+
+def gen_array(rng, name, shape, klass):
+    kind = "dyadic" if (name == "unimodality" or rng.random() < 0.5) else "float"
+    scale = rng.choice([2.0 ** -10, 1.0, 2.0 ** 10]) if kind == "dyadic" else rng.choice([1e-3, 1.0, 1e3])
+    n = int(np.prod(shape))
+    return np.array(gen_values(rng, n, kind, klass, scale), dtype=np.float64).reshape(shape), kind, scale
+
+
+def gen_spec_route(rng, name, par, a, kind, scale):
+    """proximal_operator with dict / list valued constraints: returns (effective operator, effective parameter, route)"""
+    n_const = rng.choice([1, 2, 3, 4])
+    mode = rng.randrange(n_const)
+    style = rng.choice(["dict", "list", "scalar"]) if n_const == 1 else rng.choice(["dict", "list"])
+    specs = [[name, style, mode, par]]
+    second = None
+    if n_const > 1 and style != "scalar" and rng.random() < 0.6:
+        name2 = rng.choice([x for x in DISPATCHABLE if x != name and (x != "unimodality" or kind == "dyadic")])
+        par2 = gen_par(rng, name2, a, kind, scale)
+        if can_dispatch(name2, par2):
+            mode2 = rng.choice([i for i in range(n_const) if i != mode])
+            second = (name2, par2, mode2)
+            specs.append([name2, rng.choice(["dict", "list"]), mode2, par2])
+            if rng.random() < 0.5:
+                specs.reverse()
+    order = rng.randrange(n_const)
+    route = {"specs": specs, "n_const": n_const, "order": order}
+    if style == "scalar" or order == mode:
+        return name, par, route
+    if second is not None and order == second[2]:
+        return second[0], second[1], route
+    return "identity", None, route
 
 
 def gen_cases(tier, rng):
     """yields (name, par, array, route, kind, klass)"""
-    nrep = 1 if tier == "quick" else 10
+    nrep = 2 if tier == "quick" else 14
     shapes_q = [(1,), (2,), (3,), (5,), (8,), (1, 1), (4, 1), (1, 3), (3, 2), (5, 3)]
     shapes_t = shapes_q + [(4,), (6,), (7,), (12,), (2, 2), (6, 4), (9, 2), (2, 5)]
-    classes = ["signed", "neg", "pos", "ties", "zeros", "sorted", "small"]
-    names = ["non_negative", "soft", "soft_arr", "l2_square", "l2", "smoothness", "simplex", "soft_sparsity", "monotone_inc",
-             "monotone_dec", "unimodality", "hard", "normalized_sparsity", "normalize"]
+    mshapes_q = [(1, 1), (2, 2), (3, 2), (2, 3), (4, 4), (1, 3)]
+    mshapes_t = mshapes_q + [(5, 3), (3, 5), (4, 1), (6, 6)]
     for rep in range(nrep):
         for shape in (shapes_q if tier == "quick" else shapes_t):
-            n = int(np.prod(shape))
-            for klass in classes:
-                for name in names:
-                    kind = "dyadic" if (name == "unimodality" or rng.random() < 0.5) else "float"
-                    scale = rng.choice([2.0 ** -10, 1.0, 2.0 ** 10]) if kind == "dyadic" else rng.choice([1e-3, 1.0, 1e3])
-                    a = np.array(gen_values(rng, n, kind, klass, scale), dtype=np.float64).reshape(shape)
-                    if name in ("hard", "normalized_sparsity"):
-                        par = rng.choice([0, 1, 2, max(1, n // 2), n, n + 2]) if name == "hard" else rng.choice([1, 2, max(1, n // 2), n, n + 1])
-                    elif name == "soft_arr":
-                        par = np.array([abs(x) for x in gen_values(rng, n, kind, rng.choice(["signed", "zeros"]), scale)]).reshape(shape)
-                    elif name in ("simplex", "soft_sparsity"):
-                        # inside / outside the set: the budget ranges from far below to far above the column sums
-                        base = rng.choice([1 / 16, 0.5, 1.0, 2.0, 8.0, 64.0])
-                        par = base * scale
-                    elif name in ("non_negative", "normalize", "monotone_inc", "monotone_dec", "unimodality"):
-                        par = None
-                    else:
-                        par = (rng.choice([0, 1, 4, 8, 24, 80]) / 16.0 if kind == "dyadic" else rng.choice([0.0, rng.uniform(0, 1), rng.uniform(1, 6)])) * scale
-                        if name in ("smoothness", "l2_square"):
-                            par = par / scale * rng.choice([1e-3, 1.0, 50.0]) if kind == "float" else par / scale
-                    if name in COLWISE and name != "smoothness" and len(shape) > 2:
-                        continue
-                    route = "dispatch" if (name in ("non_negative", "normalize") or (rng.random() < 0.3 and can_dispatch(name, par))) else "direct"
+            for klass in CLASSES:
+                for name in NAMES:
+                    a, kind, scale = gen_array(rng, name, shape, klass)
+                    par = gen_par(rng, name, a, kind, scale)
+                    route = "direct"
+                    if can_dispatch(name, par):
+                        u = rng.random()
+                        if name in ("non_negative", "normalize") or u < 0.25:
+                            route = "dispatch"
+                        elif u < 0.45:
+                            name, par, route = gen_spec_route(rng, name, par, a, kind, scale)
                     yield name, par, a, route, kind, klass
+        for shape in (mshapes_q if tier == "quick" else mshapes_t):
+            for klass in CLASSES + ["rank1"]:
+                for name in ("svt", "procrustes"):
+                    if klass == "rank1":
+                        u, kind, scale = gen_array(rng, name, (shape[0], 1), "signed")
+                        w, _, _ = gen_array(rng, name, (1, shape[1]), "signed")
+                        a = u @ w / max(float(np.max(np.abs(w))), 1e-300)
+                    else:
+                        a, kind, scale = gen_array(rng, name, shape, klass)
+                    par = gen_par(rng, "soft", a, kind, scale) if name == "svt" else None
+                    yield name, par, a, "direct", kind, klass
 
 
 # ----------------------------------------------------------------------------- Gallina literals
@@ -511,7 +583,7 @@ def model_hard(v, k):
     return [v[i] if i in keep else 0.0 for i in range(len(v))]
 
 
-def op_lit(name, par, a):
+def op_lit(name, par, a, tape=None):
     flat = [float(x) for x in np.asarray(a, float).reshape(-1)]
     if name == "non_negative": return "ONonneg"
     if name == "soft": return f"(OSoft {C.q(float(par))})"
@@ -527,17 +599,22 @@ def op_lit(name, par, a):
     if name == "hard": return f"(OHard {int(par)}%nat)"
     if name == "normalized_sparsity": return f"(ONormSparsity {int(par)}%nat {C.q(sqrt_q(fr_sumsq(model_hard(flat, int(par)))))})"
     if name == "normalize": return "ONormalize"
+    if name == "identity": return "OIdentity"
+    if name in ("svt", "procrustes"):
+        U, sv, V = tape
+        body = f"{rows_lit(U, U.shape[0])} {C.q_list([float(x) for x in sv])} {rows_lit(V, V.shape[0])}"
+        return f"(OSvt {C.q(float(par))} {body})" if name == "svt" else f"(OProcrustes {body})"
     raise KeyError(name)
 
 
 def tolerances(name, par, a, kind):
     """(atol, rtol) as exact rationals; (0,0) = bit-exact comparison"""
-    if name in ("non_negative", "hard"):
+    if name in ("non_negative", "hard", "identity"):
         return Fraction(0), Fraction(0)
     if name in ("soft", "soft_arr") and kind == "dyadic":
         return Fraction(0), Fraction(0)     # |x| - t and the product with the sign are exact on these inputs
     scale = max(float(np.max(np.abs(a))), 1e-300)
-    if name in ("simplex", "soft_sparsity", "soft", "l2"):
+    if name in ("simplex", "soft_sparsity", "soft", "l2", "svt"):
         scale = max(scale, abs(float(par)))
     return Fraction(scale) / 10 ** 9, Fraction(1, 10 ** 9)
 
@@ -553,36 +630,58 @@ def in_domain(name, par, a):
 
 
 # ----------------------------------------------------------------------------- run
+def route_label(route):
+    return "spec" if isinstance(route, dict) else route
+
+
+def predicates(name, par, a, out, route, rng, firm_rounds=1):
+    """all property predicates on one implementation output -> list of (predicate id, message)"""
+    if name == "identity":
+        same = isinstance(out, np.ndarray) and out.shape == np.asarray(a).shape and np.array_equal(out, a)
+        return [] if same else [("identity_unchanged", "no constraint is registered for the selected mode but the tensor was changed")]
+    fails = check_svd_output(name, par, a, out, rng) if name in ("svt", "procrustes") else check_output(name, par, a, out, rng)
+    if not fails and name in PROJECTION:
+        m = check_idempotent(name, par, route, out)
+        if m:
+            fails.append((name + "_idempotent", m))
+    if not fails and name in CONVEX and (name not in ("soft", "svt") or par >= 0):
+        for _ in range(firm_rounds):
+            m = check_firm(name, par, route, a, out, rng)
+            if m:
+                fails.append((name + "_firmly_nonexpansive", m)); break
+    return fails
+
+
 def evaluate(chk, name, par, a, route, kind, klass, rng, cases, meta):
-    st, out = C.call_impl(impl_call, name, a, par, route)
-    chk.hist("operator", name); chk.hist("route", route); chk.hist("class", klass); chk.hist("kind", kind); chk.hist("outcome", st)
-    chk.count(key=(name, a.shape, klass, kind, route), nontrivial=a.size > 1 and bool(np.any(a != 0)))
+    st, out = C.call_impl(impl_call, name, a, par, route, timeout=60)
+    rl = route_label(route)
+    if st != "ok" and out == "timeout":
+        chk.hist("outcome", "timeout-skipped"); chk.cov["skipped_timeouts"] = chk.cov.get("skipped_timeouts", 0) + 1
+        return
+    chk.hist("operator", name); chk.hist("route", rl); chk.hist("class", klass); chk.hist("kind", kind); chk.hist("outcome", st)
+    chk.count(key=(name, a.shape, klass, kind, rl), nontrivial=a.size > 1 and bool(np.any(a != 0)))
     inputs = {"op": name, "tensor": a, "param": par, "route": route}
     ep = entry_point(name, route)
     if st != "ok":
         chk.finding(ep, inputs, f"the operator raised on a valid input: {out}", name + "_feasible")
         return
     out = np.asarray(out)
-    fails = check_output(name, par, a, out, rng)
-    if not fails and name in PROJECTION:
-        m = check_idempotent(name, par, route, out)
-        if m:
-            fails.append((name + "_idempotent", m))
-    if not fails and name in CONVEX and (name != "soft" or par >= 0):
-        m = check_firm(name, par, route, a, out, rng)
-        if m:
-            fails.append((name + "_firmly_nonexpansive", m))
-    for pred, msg in fails:
+    for pred, msg in predicates(name, par, a, out, route, rng):
         chk.finding(ep, inputs, msg, pred, observed=out)
     # correspondence case
     if out.size == a.size and np.all(np.isfinite(out)):
+        tape = None
+        if name in ("svt", "procrustes"):
+            st2, tape = C.call_impl(svd_tape, a, timeout=60)
+            if st2 != "ok":
+                return
         atol, rtol = tolerances(name, par, a, kind)
         cid = len(cases)
         nrows = a.shape[0]
-        cases.append(f"({cid}%nat, {op_lit(name, par, a)}, {rows_lit(a, nrows)}, {rows_lit(out, nrows)}, {C.q(atol)}, {C.q(rtol)})")
+        cases.append(f"({cid}%nat, {op_lit(name, par, a, tape)}, {rows_lit(a, nrows)}, {rows_lit(out, nrows)}, {C.q(atol)}, {C.q(rtol)})")
         meta.append(inputs)
         if cid % 401 == 0:
-            chk.sample({"operator": name, "route": route, "param": C.jsonable(par), "input": np.asarray(a).tolist(), "output": out.tolist(),
+            chk.sample({"operator": name, "route": C.jsonable(route), "param": C.jsonable(par), "input": np.asarray(a).tolist(), "output": out.tolist(),
                         "comparison": "exact" if atol == 0 else "toleranced"})
 
 
@@ -591,11 +690,14 @@ def merge_known():
     p = os.path.join(C.VERIF, "known_findings.d", "C12.json")
     extra = json.load(open(p)).get("findings", []) if os.path.exists(p) else []
     orig = C.load_known
+    if getattr(orig, "_c12_merged", False):
+        return
     def load(prop):
         ks = orig(prop)
         if prop == "C12":
             ks = ks + [e for e in extra if e["id"] not in {k["id"] for k in ks}]
         return ks
+    load._c12_merged = True
     C.load_known = load
 
 
@@ -604,6 +706,12 @@ def drop_header_pseudo_axiom(chk):
     remove exactly that pseudo entry (real non-stdlib axioms are still reported)."""
     chk.axioms = {k: [a for a in v if a != "Axioms"] for k, v in chk.axioms.items()}
     chk.broken = [b for b in chk.broken if not (str(b.get("what", "")).endswith("depends on non-stdlib axioms") and b.get("detail") == ["Axioms"])]
+
+
+def load_case(e):
+    a = C.from_jsonable_array(e["tensor"])
+    par = C.from_jsonable_array(e["param"]) if isinstance(e["param"], dict) else e["param"]
+    return e["op"], par, a, e.get("route", "direct")
 
 
 def run(chk):
@@ -618,57 +726,67 @@ def run(chk):
     if os.path.isdir(cdir):
         for fn in sorted(os.listdir(cdir)):
             e = json.load(open(os.path.join(cdir, fn)))
-            a = C.from_jsonable_array(e["tensor"])
-            par = C.from_jsonable_array(e["param"]) if isinstance(e["param"], dict) else e["param"]
-            evaluate(chk, e["op"], par, a, e.get("route", "direct"), e.get("kind", "float"), "corpus", rng, cases, meta)
+            name, par, a, route = load_case(e)
+            evaluate(chk, name, par, a, route, e.get("kind", "float"), "corpus", rng, cases, meta)
     skipped = 0
     for name, par, a, route, kind, klass in gen_cases(chk.tier, rng):
         if not in_domain(name, par, a):
             skipped += 1; continue
         evaluate(chk, name, par, a, route, kind, klass, rng, cases, meta)
-    failing, n_eval, broken = C.run_case_shards("C12", HEADER, "case", cases, shard=150 if chk.tier == "quick" else 300)
+    failing, n_eval, broken = C.run_case_shards("C12", HEADER, "case", cases, shard=200 if chk.tier == "quick" else 300, timeout=1500)
     chk.checker_cmds.append("coqc (vm_compute) on generated build/cases/C12/*.v: Corr.C12.failing")
     chk.cov["traces_validated_against_impl"] = n_eval
     chk.cov["skipped_outside_domain"] = skipped
     chk.cov["exhaustive"] = False
-    chk.cov["rule"] = ("14 operator configurations x tensor shapes (vectors of length 1-8, matrices up to 5x3; thorough: up to 12 / 9x2, 10 repetitions) x value classes "
-                       "{signed, all-negative, all-positive, ties in magnitude, zeros, sorted, small (inside the sets)} x scales 1e-3..1e3 x "
-                       "{dyadic inputs (exact comparison where the code is division-free), arbitrary doubles (toleranced 1e-9)} x {direct call, proximal_operator dispatch}; "
+    chk.cov["rule"] = ("14 operator configurations x tensor shapes (vectors of length 1-8, matrices up to 5x3; thorough: up to 12 / 9x2, more repetitions) x value classes "
+                       "{signed, all-negative, all-positive, ties in magnitude, zeros, sorted, small (inside the sets), constant, one spike, rise-then-fall} x scales 1e-3..1e3 x "
+                       "{dyadic inputs (exact comparison where the code is division-free), arbitrary doubles (toleranced 1e-9)} x {direct call, proximal_operator with a scalar "
+                       "constraint, proximal_operator with dict / list valued constraints on 1-4 modes, one or two constraints, every order (unconstrained mode = identity)}; "
+                       "svd_thresholding / procrustes on matrices up to 4x4 (thorough 6x6) incl. rank-1, against the recorded answer of tl.truncated_svd; "
                        "a case is non-trivial if the tensor has more than one entry and is not all zero; distinct key = (operator, shape, class, kind, route)")
     for b in broken:
         chk.broken.append({"what": "correspondence corr:C12 shard not evaluated", "detail": b})
     for i in sorted(failing):
         chk.disagreement("corr:C12 (Model/Prox.v vs tensorly/tenalg/proximal.py)", meta[i])
-        # turn the disagreement into a failing input if the property predicate fails nearby
+        neighbourhood_search(chk, meta[i], rng)
     chk.assumptions = ["exact-arithmetic semantics: floating-point rounding is not modelled (bounded empirically by the toleranced comparison)",
-                       "tl.norm / tl.solve are oracles: the norm enters the model as a rational tape value checked against its contract, "
-                       "the solve through the exact certificate sm_apply t x = v on the model's own elimination",
+                       "tl.norm / tl.solve / tl.truncated_svd are oracles: the norm and the SVD enter the model as rational tape values checked against their contracts "
+                       "(s*s = sum of squares; U diag(s) V = M, U^T U = V V^T = I), the solve through the exact certificate sm_apply t x = v on the model's own elimination",
                        "np.argsort tie order is unspecified: hard-thresholding outputs are compared up to the choice among entries of equal magnitude",
-                       "svd_thresholding / procrustes are checked by Python predicates only (SVD oracle), not modelled in Coq"]
-    chk.trusted += ["reference solvers of the predicates (PAVA, bisection simplex projection, sorted top-k) - search aids only"]
+                       "optimality of svd_thresholding / procrustes (von Neumann trace inequality) is a Python predicate (KKT conditions / trace = nuclear norm), not a Coq theorem",
+                       "monotone regression: unconditional optimality is not proved; the KKT certificate (proved sound) is decided exactly on the model's output of every case"]
+    chk.trusted += ["reference solvers of the predicates (PAVA, bisection simplex projection, sorted top-k, numpy.linalg.svd) - search aids only"]
     return chk.finish(CLASSIFIERS)
+
+
+def neighbourhood_search(chk, inp, rng):
+    """a model/implementation disagreement: evaluate the property predicates on the case itself (more rounds) and on rescaled /
+    sign-flipped / permuted neighbours, to turn the disagreement into a concrete failing input"""
+    name, par, a, route = inp["op"], inp["param"], np.asarray(inp["tensor"], float), inp["route"]
+    ep = entry_point(name, route)
+    neigh = [a, -a, a[::-1].copy(), a * 0.5, np.abs(a), -np.abs(a)]
+    for b in neigh:
+        if not in_domain(name, par, b):
+            continue
+        st, out = C.call_impl(impl_call, name, b, par, route, timeout=60)
+        if st != "ok":
+            if out != "timeout":
+                chk.finding(ep, {"op": name, "tensor": b, "param": par, "route": route}, f"the operator raised on a valid input: {out}", name + "_feasible")
+            continue
+        for pred, msg in predicates(name, par, b, np.asarray(out), route, rng, firm_rounds=10):
+            chk.finding(ep, {"op": name, "tensor": b, "param": par, "route": route}, msg, pred, observed=np.asarray(out))
 
 
 def replay(payload):
     if payload.get("kind") != "failing-input":
         print("replay file names a broken theorem/correspondence, not an input:", payload.get("theorem_or_correspondence"))
         return 1
-    inp = payload["inputs"]
-    a = C.from_jsonable_array(inp["tensor"])
-    par = C.from_jsonable_array(inp["param"]) if isinstance(inp["param"], dict) else inp["param"]
-    name, route = inp["op"], inp.get("route", "direct")
+    name, par, a, route = load_case(payload["inputs"])
     rng = random.Random(0)
-    st, out = C.call_impl(impl_call, name, a, par, route)
+    C.reset_backends()
+    st, out = C.call_impl(impl_call, name, a, par, route, timeout=120)
     if st != "ok":
         print("replay: raised", out); return 1
-    out = np.asarray(out)
-    fails = check_output(name, par, a, out, rng)
-    if name in PROJECTION and not fails:
-        m = check_idempotent(name, par, route, out)
-        if m: fails.append((name + "_idempotent", m))
-    if name in CONVEX and not fails:
-        for _ in range(20):
-            m = check_firm(name, par, route, a, out, rng)
-            if m: fails.append((name + "_firmly_nonexpansive", m)); break
-    print("replay:", name, route, "->", fails or "holds")
+    fails = predicates(name, par, a, np.asarray(out), route, rng, firm_rounds=20)
+    print("replay:", name, route_label(route), "->", fails or "holds")
     return 1 if fails else 0
